@@ -1,6 +1,9 @@
 import Mimium.Model.Ffi
+import Mimium.Model.FfiType
+import Mimium.Model.FfiValueSerde
 /-! Text codec of the C20 line protocol (same text form as `harness/src/bin/c20.rs`) and the executable judge. -/
 namespace Mimium.Ffi
+open Mimium.Gen.Ffi
 
 def hexDigit (n : Nat) : Char := if n < 10 then Char.ofNat (48 + n) else Char.ofNat (87 + n)
 
@@ -40,22 +43,27 @@ def u64OfHex (s : String) : Option UInt64 := (natOfHex s).map UInt64.ofNat
 def strOfHex (s : String) : Option String := (bytesOfHex s).bind ofBytes?
 def hexOfStr (s : String) : String := hexOfBytes (strBytes s)
 
-/-- symbols are printed through `sym` -/
-partial def showValue {σ} (sym : σ → String) : Value σ → String
+/-- symbols are printed through `sym` (string values, record keys) and `bare` (inside `F…`, `X…`, `K…`) -/
+partial def showValueWith {σ} (sym bare : σ → String) : Value σ → String
   | .errorV e => "E" ++ hexOfKey e
   | .unit => "U"
   | .number b => "N" ++ hex16 b.toNat
   | .string s => sym s
-  | .array vs => "(A" ++ String.join (vs.map (fun v => " " ++ showValue sym v)) ++ " )"
-  | .tuple vs => "(T" ++ String.join (vs.map (fun v => " " ++ showValue sym v)) ++ " )"
-  | .record fs => "(R" ++ String.join (fs.map (fun (k, v) => " " ++ sym k ++ " " ++ showValue sym v)) ++ " )"
+  | .array vs => "(A" ++ String.join (vs.map (fun v => " " ++ showValueWith sym bare v)) ++ " )"
+  | .tuple vs => "(T" ++ String.join (vs.map (fun v => " " ++ showValueWith sym bare v)) ++ " )"
+  | .record fs => "(R" ++ String.join (fs.map (fun (k, v) => " " ++ sym k ++ " " ++ showValueWith sym bare v)) ++ " )"
   | .closure _ _ => "L"
-  | .fixpoint s e => "F" ++ (sym s).drop 1 ++ ":" ++ hexOfKey e
+  | .fixpoint s e => "F" ++ bare s ++ ":" ++ hexOfKey e
   | .code e => "C" ++ hexOfKey e
-  | .externalFn s => "X" ++ (sym s).drop 1
-  | .store v => "(O " ++ showValue sym v ++ " )"
-  | .taggedUnion t v => "(G" ++ hex16 t.toNat ++ " " ++ showValue sym v ++ " )"
-  | .constructorFn t s k => "K" ++ hex16 t.toNat ++ ":" ++ (sym s).drop 1 ++ ":" ++ hexOfKey k
+  | .externalFn s => "X" ++ bare s
+  | .store v => "(O " ++ showValueWith sym bare v ++ " )"
+  | .taggedUnion t v => "(G" ++ hex16 t.toNat ++ " " ++ showValueWith sym bare v ++ " )"
+  | .constructorFn t s k => "K" ++ hex16 t.toNat ++ ":" ++ bare s ++ ":" ++ hexOfKey k
+
+def showValue (sym : String → String) (v : Value String) : String := showValueWith sym hexOfStr v
+
+def rawSym (s : UInt64) : String := "#" ++ hex16 s.toNat
+def showRaw (v : RawValue) : String := showValueWith rawSym rawSym v
 
 def symStr (s : String) : String := "S" ++ hexOfStr s
 
@@ -190,5 +198,109 @@ def judgeM (as : List (Value String × Key)) (implSer implBack : String) : Strin
       if implBack == showArgs as then "ok"
       else if implBack == showArgs (as.map (fun (v, k) => (v.eraseErrors, k))) then "PROPFAIL:errorv-to-unit"
       else "PROPFAIL:altered"
+
+
+/-! ### raw form (symbols as `#id`) for the direct `Value` codec -/
+
+def parseRawStr (s : String) : Option RawValue :=
+  match parseValue '#' u64OfHex (tokens s) with
+  | some (v, []) => some v
+  | _ => none
+
+def modelW (v : RawValue) : String × String :=
+  match encodeVal v with
+  | none => ("ERR", "-")
+  | some bs => (hexOfBytes bs, match decodeValTop bs with
+    | some b => showRaw b
+    | none => "ERR")
+
+def judgeW (v : RawValue) (implSer implBack : String) : String :=
+  if implSer == "PANIC" || implBack == "PANIC" then "PROPFAIL:panic"
+  else if implSer.startsWith "ERR:" then (if v.directOk then "PROPFAIL:refused-representable" else "ok-refused")
+  else if !v.directOk then "PROPFAIL:opaque-not-refused"
+  else if implBack == showRaw v then "ok" else "PROPFAIL:altered"
+
+/-! ### types -/
+
+def showKeys (ks : List Key) : String := "[ " ++ String.join (ks.map (fun k => hexOfKey k ++ " ")) ++ "]"
+
+def showTy : Ty → String
+  | .primitive p => s!"Primitive {p.tag.toNat}"
+  | .array k => "Array " ++ hexOfKey k
+  | .tuple ks => "Tuple " ++ showKeys ks
+  | .record fs => "Record [ " ++ String.join (fs.map (fun f =>
+      hex16 f.key.toNat ++ " " ++ hexOfKey f.ty ++ " " ++ (if f.hasDefault then "1" else "0") ++ " ")) ++ "]"
+  | .function a r => "Function " ++ hexOfKey a ++ " " ++ hexOfKey r
+  | .ref k => "Ref " ++ hexOfKey k
+  | .code k => "Code " ++ hexOfKey k
+  | .union ks => "Union " ++ showKeys ks
+  | .userSum n vs => "UserSum " ++ hex16 n.toNat ++ " [ " ++ String.join (vs.map (fun (s, k) =>
+      hex16 s.toNat ++ " " ++ (match k with | none => "-" | some k => hexOfKey k) ++ " ")) ++ "]"
+  | .boxed k => "Boxed " ++ hexOfKey k
+  | .intermediate => "Intermediate"
+  | .typeScheme n => "TypeScheme " ++ hex16 n.toNat
+  | .typeAlias s => "TypeAlias " ++ hex16 s.toNat
+  | .any => "Any"
+  | .failure => "Failure"
+  | .unknown => "Unknown"
+
+def listBody (ts : List String) : Option (List String) :=
+  match ts with
+  | "[" :: rest => if rest.getLast? == some "]" then some rest.dropLast else none
+  | _ => none
+
+def chunk3 : List String → Option (List (String × String × String))
+  | [] => some []
+  | a :: b :: c :: rest => (chunk3 rest).map (fun xs => (a, b, c) :: xs)
+  | _ => none
+
+def chunk2 : List String → Option (List (String × String))
+  | [] => some []
+  | a :: b :: rest => (chunk2 rest).map (fun xs => (a, b) :: xs)
+  | _ => none
+
+def parseTy (s : String) : Option Ty :=
+  match tokens s with
+  | ["Primitive", p] => (p.toNat?.bind (fun n => PTypeCtor.ofTag (UInt32.ofNat n))).map .primitive
+  | ["Array", k] => (keyOfHex k).map .array
+  | "Tuple" :: l => (listBody l).bind (fun l => (l.mapM keyOfHex).map .tuple)
+  | "Union" :: l => (listBody l).bind (fun l => (l.mapM keyOfHex).map .union)
+  | "Record" :: l => (listBody l).bind chunk3 |>.bind (fun l => (l.mapM (fun (a, b, c) =>
+      match u64OfHex a, keyOfHex b with
+      | some a, some b => some (RecordTypeField.mk a b (c == "1"))
+      | _, _ => none)).map .record)
+  | ["Function", a, r] => match keyOfHex a, keyOfHex r with
+    | some a, some r => some (.function a r)
+    | _, _ => none
+  | ["Ref", k] => (keyOfHex k).map .ref
+  | ["Code", k] => (keyOfHex k).map .code
+  | "UserSum" :: n :: l => match u64OfHex n, (listBody l).bind chunk2 with
+    | some n, some l => (l.mapM (fun (a, b) =>
+        match u64OfHex a, (if b == "-" then some none else (keyOfHex b).map some) with
+        | some a, some b => some (a, b)
+        | _, _ => none)).map (.userSum n)
+    | _, _ => none
+  | ["Boxed", k] => (keyOfHex k).map .boxed
+  | ["Intermediate"] => some .intermediate
+  | ["TypeScheme", n] => (u64OfHex n).map .typeScheme
+  | ["TypeAlias", n] => (u64OfHex n).map .typeAlias
+  | ["Any"] => some .any
+  | ["Failure"] => some .failure
+  | ["Unknown"] => some .unknown
+  | _ => none
+
+def modelT (t : Ty) : String × String :=
+  match encodeTy t with
+  | none => ("ERR", "-")
+  | some bs => (hexOfBytes bs, match decodeTyTop bs with
+    | some b => showTy b
+    | none => "ERR")
+
+/-- refused ⇒ must be one of the two internal variants (`C20_type_refusal_iff`); else it must come back unchanged -/
+def judgeT (t : Ty) (implSer implBack : String) : String :=
+  if implSer == "PANIC" || implBack == "PANIC" then "PROPFAIL:panic"
+  else if implSer.startsWith "ERR:" then (if (encodeTy t).isNone then "ok-refused" else "PROPFAIL:refused-representable")
+  else if (encodeTy t).isNone then "PROPFAIL:opaque-not-refused"
+  else if implBack == showTy t then "ok" else "PROPFAIL:altered"
 
 end Mimium.Ffi
